@@ -334,7 +334,12 @@ pub fn c14(ctx: &Ctx, rep: &mut Report) {
             match real::parse(src) {
                 Ok(ast) => {
                     let mut rng = ctx.rng("replay", 0);
-                    judge(rep, "C14", "replay", &ast, src, &mut rng, JudgeOpts::full());
+                    let j = judge(rep, "C14", "replay", &ast, src, &mut rng, JudgeOpts::full());
+                    if r.get("via").and_then(|v| v.as_str()) == Some("cli") {
+                        let dir = ctx.scratch("replay");
+                        judge_cli(rep, "C14", "replay", src, &j.outcome, &dir, 0);
+                        judge_cli(rep, "C14", "replay", src, &j.outcome, &dir, 1);
+                    }
                 }
                 Err(e) => rep.notes.push(format!("replay does not parse: {}", e)),
             }
